@@ -72,15 +72,26 @@ def groups_of(chans):
 
 
 class ValueSrc:
-    """distinct small sample values per data channel (uint8 stays below 256)"""
+    """distinct small sample values per data channel (uint8 stays below 256).  On the
+    variable-length types (string, json) the value 0 is the ZERO-LENGTH sample (a record that is
+    a length prefix only); it is placed preferably at the end of a frame, i.e. where a commit may
+    end a domain, so that offset tables rebuilt from the file see a prefix-only last record."""
 
-    def __init__(self, chans):
+    def __init__(self, chans, rng=None):
         self.next = {c["key"]: (c["key"] % 7) * 3 + 1 for c in chans}
+        self.var = {c["key"] for c in chans if c["dt"] in ("string", "json")}
+        self.rng = rng
 
     def take(self, key, n):
         v = self.next[key]
         self.next[key] = v + n
-        return list(range(v, v + n))
+        out = list(range(v, v + n))
+        if self.rng is not None and key in self.var and n > 0:
+            if self.rng.random() < 0.4:
+                out[-1] = 0
+            if self.rng.random() < 0.12:
+                out[self.rng.randrange(n)] = 0
+        return out
 
 
 def gen_region_stamps(rng, t0, nframes, spacing_choices=SPACINGS):
@@ -105,7 +116,7 @@ def gen_rollover_setup(rng):
     chans = [{"key": 1, "index": 0, "dt": "timestamp"}]
     for k in range(2, 2 + rng.choice([1, 1, 2])):
         chans.append({"key": k, "index": 1, "dt": rng.choice(["uint8", "uint8", "float32", "int64", "string"])})
-    vals = ValueSrc(chans)
+    vals = ValueSrc(chans, rng)
     cap = rng.choice([40, 40, 64, 100])
     script = []
     t = rng.choice([0, 3, 1000])
@@ -136,7 +147,7 @@ def gen_setup(rng, malformed=False, max_idx=3, max_data=3, min_data=0, allow_reo
     auto-commit, small file-size caps forcing rollover, groups that do not write their index."""
     chans = gen_channels(rng, max_idx, max_data, min_data)
     groups = groups_of(chans)
-    vals = ValueSrc(chans)
+    vals = ValueSrc(chans, rng)
     cap = rng.choice([0, 0, 0, 40, 64, 100, 100, 200, 1000])
     nsess = rng.choice([1, 2, 2, 3, 3, 4])
     # plan disjoint regions on one time line shared by all index groups
